@@ -4,8 +4,6 @@ import (
 	"fmt"
 
 	"pgregory.net/rapid"
-
-	kit "github.com/NVIDIA/KAI-scheduler/zz_verif/verifkit"
 )
 
 // fair draws (rapid's integer generators are biased towards small values)
@@ -14,18 +12,6 @@ type c20G struct {
 	c *c20Case
 	m *c20Model // generator-side view of the current objects
 	n int       // name counter
-	// PodGroups that held resources while non-preemptible: flipping them to preemptible triggers the known defect
-	// "allocatedNonPreemptible is never cleared" (finding-stale-nonpreemptible.json) and is excluded by construction
-	taint map[string]bool
-}
-
-func (g *c20G) refreshTaint() {
-	for _, n := range c20Keys(g.m.pgs) {
-		pg := g.m.pgs[n]
-		if !g.m.preemptible(pg) && len(g.m.pgTruth(pg).allocated) > 0 {
-			g.taint[n] = true
-		}
-	}
 }
 
 func (g *c20G) u(n int, label string) int {
@@ -81,12 +67,6 @@ func (g *c20G) placement(p *c20Pod) {
 	default:
 		p.Phase, p.Scheduled = "Unknown", "True"
 	}
-	if p.Devices >= 2 && (p.Phase == "Running" || p.Phase == "Pending" && p.Scheduled == "True") {
-		// known defect "allocated of a multi-device sharer is reported for one device" (finding-multi-device-allocated.json):
-		// excluded by construction — a multi-device sharer never holds resources in generated histories
-		kit.Note("excluded:multi-device-sharer-holding-resources", 1)
-		p.Phase, p.Scheduled, p.Node = "Pending", "", ""
-	}
 	if p.Scheduled == "True" && p.Node == "" {
 		if p.GPUMemory > 0 {
 			p.Node = g.pick("gpuMemNode", "n1", "n2") // nodes that advertise nvidia.com/gpu.memory
@@ -122,7 +102,7 @@ func (g *c20G) newPod() *c20Pod {
 			case 2:
 				p.Fraction, p.FracValue = "0.50", "0.5"
 			default:
-				p.Fraction, p.FracValue = "0x1p-1", "0.5"
+				p.Fraction, p.FracValue = "0x1p-1", "0.5" // hex float: admitted by strconv.ParseFloat
 			}
 		}
 	} else if kind >= 15 && kind < 18 {
@@ -241,10 +221,6 @@ func (g *c20G) event() *c20Event {
 				pg.Preempt = g.pick("flipAny", "", "preemptible", "non-preemptible")
 				pg.PrioClass = g.pick("flipAnyClass", "train", "build", "inference", "", "missing-class")
 			}
-			if g.taint[pg.Name] && g.m.preemptible(&pg) {
-				kit.Note("excluded:flip-to-preemptible-after-nonpreemptible-allocation", 1)
-				pg.Preempt = "non-preemptible"
-			}
 			return &c20Event{Kind: "setPG", PG: &pg}
 		case x < 14 && len(pgs) > 0: // PodGroup moves to another queue
 			pg := *g.m.pgs[pgs[g.u(len(pgs), "evQueuePG")]]
@@ -252,7 +228,11 @@ func (g *c20G) event() *c20Event {
 			return &c20Event{Kind: "setPG", PG: &pg}
 		case x < 15:
 			if len(pgs) < 6 {
-				return &c20Event{Kind: "setPG", PG: g.newPG()}
+				pg := g.newPG()
+				if _, exists := g.m.pgs["pg-missing"]; !exists && g.chance(3, "adoptingPG") {
+					pg.Name = "pg-missing" // pods that already point to this name are adopted by the late PodGroup
+				}
+				return &c20Event{Kind: "setPG", PG: pg}
 			}
 		case x < 16 && len(pgs) > 0:
 			return &c20Event{Kind: "delPG", Name: pgs[g.u(len(pgs), "evDelPG")]}
@@ -305,7 +285,7 @@ func (g *c20G) event() *c20Event {
 
 func c20GenCase(t *rapid.T) *c20Case {
 	c := &c20Case{}
-	g := &c20G{t: t, c: c, taint: map[string]bool{}}
+	g := &c20G{t: t, c: c}
 	for _, p := range []c20Prio{{Name: "train", Value: 50}, {Name: "build", Value: 100}, {Name: "inference", Value: 125}} {
 		if g.chance(8, "prioExists") {
 			c.Prios = append(c.Prios, p)
@@ -341,12 +321,10 @@ func c20GenCase(t *rapid.T) *c20Case {
 		c.Pods = append(c.Pods, *g.newPod())
 	}
 	g.m = c20NewModel(c)
-	g.refreshTaint()
 	for i, n := 0, g.between(3, 12, "events"); i < n; i++ {
 		e := g.event()
 		c.Events = append(c.Events, *e)
 		g.m.apply(&c.Events[len(c.Events)-1])
-		g.refreshTaint()
 	}
 	for i := 0; i < 48; i++ {
 		c.Tape = append(c.Tape, g.u(256, "tape"))
